@@ -1,7 +1,7 @@
 (* C10 - Client calls fail promptly, never hang, when the connection fails.
    Property theorems only (proved in Clnt/ClntProofs.v and Recv/RecvProofs.v). *)
 From Coq Require Import NArith List Bool.
-From V9 Require Shape.ShapeLib Shape.Params.
+From V9 Require Shape.ShapeLib Shape.PClient.
 From V9 Require Import Lib.GoSem Lib.Bytes Gen.Consts Clnt.Model Clnt.ClntProofs Recv.Recv Recv.RecvProofs.
 Import ListNotations.
 
@@ -80,5 +80,5 @@ Proof. eexists. vm_compute. repeat split. Qed.
    writes; recv publishes the error before it closes done and tells the callers after; Rpc recycles the request
    only after it was told ---- *)
 Theorem C10_source_failure_order : ShapeLib.client_failure_order = true.
-Proof. exact Params.client_failure_order_ok. Qed.
+Proof. exact PClient.client_failure_order_ok. Qed.
 Print Assumptions C10_source_failure_order.
